@@ -161,6 +161,14 @@ func (p c18) battery(env *Env) (*Case, []*Out) {
 			for _, np := range nullPositions {
 				buildContentFault(w, args, t0, k, 0, 0, "", np, add, "")
 			}
+		case "yaml-json-junk":
+			y1 := *w.Files[1]
+			y1.YAML, y1.Base = true, "t1f.yaml"
+			wy := *w
+			wy.Files = []*SFile{w.Files[0], &y1}
+			for i := range yamlJSONJunk {
+				buildContentFault(&wy, []string{"b/t1f.yaml"}, &y1, k, i, 0, "", "", add, "")
+			}
 		default:
 			buildContentFault(w, args, t0, k, 0, 0, "", "", add, "")
 		}
@@ -691,7 +699,13 @@ func argFiles(w *World, args []string) []*SFile {
 	return fs
 }
 
-var contentFaultKinds = []string{"torn", "empty", "flip", "dir", "garbage", "null-subschema", "ref-hash", "missing-arg", "dangling-symlink"}
+var contentFaultKinds = []string{"torn", "empty", "flip", "dir", "garbage", "null-subschema", "ref-hash", "missing-arg", "dangling-symlink", "yaml-json-junk"}
+
+// yamlJSONJunk: what a YAML-named file holds in the "yaml-json-junk" content fault - the document written as JSON
+// (every JSON text is YAML) followed by something that makes the whole neither: a stray brace, or a second object
+// without a document separator. A YAML reader rejects both; a reader that sniffs "starts with {" and hands the bytes
+// to a JSON decoder, which stops after the first value, does not (seeded change s107).
+var yamlJSONJunk = []string{"\n}\n", "\n{\"type\": \"object\", \"properties\": {\"x\": {\"$ref\": \"#/$defs/NoSuchDefinition\"}}}\n", "\n]]\n"}
 var garbageChoices = []string{"\x00\x01\x02", "<html></html>", "[1,2,3]", "\"str\"", "42", "null", "{", "}{", "{\"type\":}", "\xff\xfe{}", "- a\n- b\n", "a: [\n"}
 var nullPositions = []string{"prop", "def", "item", "anyOf", "allOf", "additionalProperties"}
 
@@ -792,6 +806,13 @@ func buildContentFault(w *World, args []string, f *SFile, kind string, frac, mas
 		mr.MustFail = true
 	case "dangling-symlink":
 		replace(simrt.Node{Path: abs, Kind: "l", Target: "nowhere/at/all.json"})
+		mr.MustFail = true
+	case "yaml-json-junk":
+		if !f.YAML {
+			return // trailing bytes after a JSON value in a JSON-named file are ignored by design (streaming decoder)
+		}
+		junk := yamlJSONJunk[frac%len(yamlJSONJunk)]
+		replace(simrt.Node{Path: abs, Kind: "f", Data: append(subst(RenderJSON(f.Doc, nil), "", w.Root), []byte(junk)...)})
 		mr.MustFail = true
 	}
 	add("content "+mr.What, spec, mr)
